@@ -257,8 +257,10 @@ def check_gv(attrs, snap, q, r, fail):
         allpos = {}
         for p, k, v in _edges(snap):
             allpos.setdefault(v, []).append([p, k])
+        same = any(len(set(q for q, _ in p)) > 1 and None not in [q for q, _ in p] and len(set(attrs[q]["uid"] for q, _ in p)) == 1
+                   for p in allpos.values())
         return fail("gv-duplicate", uids, "each variant at most once",
-                    dict(facts, positions=positions, placed_twice=any(len(p) > 1 for p in allpos.values())))
+                    dict(facts, positions=positions, placed_twice=any(len(p) > 1 for p in allpos.values()), same_uid_containers_in_forest=same))
     real_types = [t for t in types if t != "self"]
     for i in res:
         is_self = ("self" in types and i == c)
@@ -296,8 +298,10 @@ def check_state(attrs, snap, hist, fail, check_find=True):
     dashed_top = set(v for p, k, v in edges if p is None and "-" in attrs[v]["uid"])
     for p, k, v in edges:
         a = attrs[v]
-        facts = {"variant": a["uid"], "container": None if p is None else attrs[p]["uid"], "key": k,
-                 "suspect_parent_pointer": v in hist["parent_suspect"], "placed_twice": len(pos[v]) > 1}
+        conts = [q for q, _ in pos[v]] + ([snap["parent"][v]] if snap["parent"][v] is not None and snap["parent"][v] >= 0 else [])
+        facts = {"variant": a["uid"], "container": None if p is None else attrs[p]["uid"], "key": k, "placed_twice": len(pos[v]) > 1,
+                 # F33: the objects that hold v / that v points to are different objects with one and the same UID
+                 "containers_same_uid": len(set(conts)) > 1 and None not in conts and len(set(attrs[q]["uid"] for q in conts)) == 1}
         if p is not None:
             if a["uid"] != "%s-%s" % (attrs[p]["uid"], a["id"]):
                 return fail("inv-uid-align", a["uid"], "%s-%s" % (attrs[p]["uid"], a["id"]), facts)
@@ -314,8 +318,10 @@ def check_state(attrs, snap, hist, fail, check_find=True):
             return fail("inv-parent-mirror", {"parent": snap["parent"][v]}, {"parent": p}, facts)
     for v, ps in pos.items():
         if len(ps) > 1:
-            return fail("inv-placed-twice", ps, "each variant in one place", {"variant": attrs[v]["uid"], "suspect_parent_pointer": v in hist["parent_suspect"],
-                                                                              "custom_key": any(p is None and k != attrs[v]["id"] for p, k in ps)})
+            cs = [p for p, _ in ps]
+            return fail("inv-placed-twice", ps, "each variant in one place",
+                        {"variant": attrs[v]["uid"], "custom_key": any(p is None and k != attrs[v]["id"] for p, k in ps),
+                         "containers_same_uid": len(set(cs)) > 1 and None not in cs and len(set(attrs[q]["uid"] for q in cs)) == 1})
     by_uid = {}
     for v in _placed(snap):                     # the forest = what hangs below the top-level container
         by_uid.setdefault(attrs[v]["uid"], []).append(v)
@@ -365,7 +371,7 @@ def oracle_run(case, out):
     def fail(kind, observed, required, facts, step=None):
         fails.append({"kind": kind, "observed": {"got": observed, "facts": facts, "step": step}, "required": required})
         return True
-    hist = {"parent_suspect": set(), "recursion_possible": False}
+    hist = {}
     prev = {"top": [], "kids": [[] for _ in attrs], "parent": [None] * len(attrs)}
     for t, (op, st) in enumerate(zip(a["ops"], out["steps"])):
         c, v, key = op["c"], op["v"], op.get("key") if op["c"] is None else None
@@ -393,10 +399,13 @@ def oracle_run(case, out):
             causes.append("bad-field")
         facts = {"causes": causes, "container": None if c is None else attrs[c]["uid"], "variant": av["uid"], "key": key,
                  "variant_parent_set_before": prev["parent"][v] is not None, "variant_placed_before": bool(pos_before),
-                 "parent_cycle_before": _parent_cycle(prev, c)}
+                 "placed_elsewhere_before": [q for q, kk in pos_before if q != c]}
         accepted = st["out"] == "ok"
         if not accepted and _maps(st) != _maps(prev):
             sfail("refused-changed", {"top": st["top"], "kids": st["kids"]}, {"top": prev["top"], "kids": prev["kids"]}, facts)
+        if not accepted and st["parent"] != prev["parent"]:
+            # F13 (fixed): a refused add must not leave the variant pointing at the container
+            sfail("refused-changed-parent", {"parent": st["parent"]}, {"parent": prev["parent"]}, facts)
         if accepted and causes:
             sfail("accepted-invalid", "add accepted", "refused (%s)" % ", ".join(causes), facts)
         if accepted:
@@ -409,15 +418,12 @@ def oracle_run(case, out):
                 sfail("accepted-frame", {"top": st["top"], "kids": st["kids"]}, {"top": exp[0], "kids": exp[1]}, facts)
         if not accepted and not causes and not (pos_before and [c, k] not in pos_before):
             sfail("refused-valid", st["out"], "a valid add is accepted", facts)
-        # bookkeeping for attributing later failures: whose parent pointer may be stale
-        if (not accepted and c is not None and pos_before) or (accepted and c is None and prev["parent"][v] is not None):
-            hist["parent_suspect"].add(v)
         check_state(attrs, st, hist, sfail)
         prev = st
     final = out["steps"][-1] if out["steps"] else prev
     if out["steps"]:
         for q, r in zip(out["queries"], out["qres"]):
-            check_gv(attrs, final, q, r, lambda k_, o, rq, f: fail(k_, o, rq, dict(f, suspect=bool(hist["parent_suspect"]),
+            check_gv(attrs, final, q, r, lambda k_, o, rq, f: fail(k_, o, rq, dict(f,
                                                                custom_key_in_history=any(o_["c"] is None and o_.get("key") not in (None, "", attrs[o_["v"]]["id"]) for o_ in a["ops"])), step="final"))
     # write/read cycle
     rl = out.get("reload")
@@ -426,10 +432,10 @@ def oracle_run(case, out):
         if "dump_err" in rl or "load_err" in rl:
             if clean_before:
                 fail("reload-failed", rl, "a forest satisfying the invariants can be written and read back",
-                     {"invariants_held_before": clean_before, "suspect_parent_pointer": bool(hist["parent_suspect"])}, step="reload")
+                     {"invariants_held_before": clean_before}, step="reload")
         else:
             a2 = rl["variants"]
-            h2 = {"parent_suspect": set()}
+            h2 = {}
             check_state(a2, rl["snap"], h2, lambda k_, o, rq, f: fail("reload:" + k_, o, rq, dict(f, invariants_held_before=clean_before), step="reload"))
             for q, r in zip(rl["queries"], rl["qres"]):
                 check_gv(a2, rl["snap"], q, r, lambda k_, o, rq, f: fail("reload:" + k_, o, rq, dict(f, invariants_held_before=clean_before), step="reload"))
@@ -450,18 +456,13 @@ def oracle_run(case, out):
 def _explained(f):
     k, facts = f["kind"], f["observed"]["facts"]
     k = k[7:] if k.startswith("reload:") else k
-    if k == "inv-parent-mirror" and facts.get("suspect_parent_pointer"): return True
-    if k == "refused-valid" and facts.get("parent_cycle_before") and f["observed"]["got"] == "RuntimeError": return True
-    if k == "refused-valid" and facts.get("container") is None and facts.get("variant_parent_set_before"): return True
-    if k == "accepted-invalid" and facts.get("causes") == ["misaligned-uid"] and facts.get("container") is None and facts.get("variant_parent_set_before"): return True
-    if k == "inv-uid-align" and facts.get("container") is None and facts.get("suspect_parent_pointer"): return True
-    if k in ("inv-placed-twice",): return True if (facts.get("suspect_parent_pointer") or facts.get("custom_key")) else False
-    if k == "gv-duplicate" and facts.get("placed_twice") and (facts.get("suspect") or facts.get("custom_key_in_history")): return True
-    if k == "inv-dup-uid" and facts.get("involves_dashed_top"): return True
+    if k in ("inv-parent-mirror", "inv-placed-twice") and facts.get("containers_same_uid"): return True           # F33
+    if k == "inv-placed-twice" and facts.get("custom_key"): return True                                         # F29
+    if k == "gv-duplicate" and facts.get("placed_twice") and (facts.get("custom_key_in_history") or facts.get("same_uid_containers_in_forest")): return True
+    if k == "inv-dup-uid" and facts.get("involves_dashed_top"): return True                                     # F14
     if k == "not-findable-by-uid" and (facts.get("shadowed_by_relative_path") or facts.get("dup_uid") or facts.get("top_key_not_id_or_uid")): return True
-    if k == "not-findable-by-id" and facts.get("key_is_uid"): return True
     if k == "inv-key" and facts.get("key_given"): return True
-    if k == "gv-arch" and facts.get("is_receiver_via_self"): return True
+    if k == "gv-arch" and facts.get("is_receiver_via_self"): return True                                        # F28
     if k == "gv-error" and facts.get("types_has_self") and facts.get("container_is_top"): return True
     return False
 
@@ -547,7 +548,7 @@ class Gen(object):
         r = self.rng
         kinds = ["valid"] * 7 + ["dashtop", "keyed", "bottomup", "dupid", "foreign", "misuid", "badid", "badfield", "fresh-wrongparent"]
         if self.nasty:
-            kinds += ["ancestor", "placed", "placed-top", "readd", "retry", "dashcollide", "sameid", "junkkey", "dashparent"] * 1
+            kinds += ["ancestor", "placed", "placed-top", "readd", "retry", "dashcollide", "sameid", "junkkey", "dashparent", "twin"] * 1
         kind = r.choice(kinds)
         placed_vars = list(self.par)
         if kind == "valid":
@@ -701,6 +702,17 @@ class Gen(object):
             id_ = self.fresh_id(None)
             v = self.new(id_, id_, self.sub_arches(None))
             return self.emit(None, v, kind, key=r.choice(["junk", "Server", id_ + "-x"]), expect_ok=True)
+        if kind == "twin":
+            # a second object with the attributes of a placed parent (refused as a duplicate), then a child of the first added to it (F33)
+            ps = [v for v in placed_vars if self.kids[v]]
+            if not ps:
+                return
+            pv = r.choice(ps)
+            a = self.variants[pv]
+            q = self.new(a["id"], a["uid"], a["arches"], typ=a["type"])
+            self.emit(self.par[pv], q, kind + "-dup")
+            ch = r.choice(sorted(self.kids[pv].values()))
+            return self.emit(q, ch, kind)
         if kind == "dashparent":
             ds = [v for v in placed_vars if self.par[v] is None and "-" in self.variants[v]["uid"]]
             if not ds:
@@ -737,12 +749,14 @@ class C11(Prop):
                    "Python's stable list.sort is modelled by a stable insertion sort; str comparison by code point",
                    "RecursionError is modelled as running out of fuel (900 frames)"]
     partial = {
-        "C11_inv_partial": "full Inv (parent/children mirror, one position per object, top-level UID alignment, top-level key = id or UID) is preserved only by calls whose argument is not yet in the forest and, for a top-level add, has parent pointer None and key id/UID (hypothesis Fresh): a refused add still rewrites the parent pointer of its argument (F13, C11_refused_parent_witness), Variants.add validates against a stale parent (F19, C11_stale_parent_witness) and accepts any key (F22). Unconditional part: C11_inv (InvW)",
-        "C11_reachable_partial": "same hypothesis on every call of the history (FreshRun); unconditional part: C11_reachable (InvW after ANY history)",
-        "C11_findable_partial": "lookup by UID from the top needs: top-level keys are id or UID (F22), UID of v not shared by another top-level variant (F14, C11_dup_uid_witness), dashed top-level variants childless (the property's quantifier), and NoShadow: no child of an ancestor a of v has the UID 'path of v relative to a' (F20, C11_shadow_witness: __getitem__ compares relative paths with full UIDs). By id from the parent / by key from the top are full (C11_findable_by_id, C11_findable_by_key)",
+        "C11_inv_partial": "full Inv (parent/children mirror, one position per object, top-level UID alignment, top-level key = id or UID) is preserved by every add - accepted or refused, whatever the parent pointer of the argument - whose argument is not already filed under ANOTHER container object or key (AddOk). Still needed after the F13/F26 repair: add does not check it, and two Variant objects with one UID both accept the same child (F33, C11_two_parents_witness); explicit top-level keys are unchecked (F29). Unconditional part: C11_inv (InvW)",
+        "C11_reachable_partial": "same hypothesis on every call of the history (OkRun); unconditional part: C11_reachable (InvW after ANY history)",
+        "C11_inv_distinct_partial": "no hypothesis on the call: full Inv for EVERY add with the default key when the objects have pairwise different, not all-dash UIDs (UidsApart) - the hypothesis names F14/F33 (duplicate UIDs are not refused)",
+        "C11_reachable_distinct_partial": "full Inv after ALL histories with default keys over objects with pairwise different UIDs",
+        "C11_findable_partial": "lookup by UID from the top needs: top-level keys are id or UID (F29), UID of v not shared by another top-level variant (F14, C11_dup_uid_witness), dashed top-level variants childless (the property's quantifier), and NoShadow: no child of an ancestor a of v has the UID 'path of v relative to a' (F27, C11_shadow_witness: __getitem__ compares relative paths with full UIDs). By id from the parent / by key from the top are full (C11_findable_by_id, C11_findable_by_key)",
         "C11_findable_inv_partial": "as C11_findable_partial with key/alignment facts taken from Inv",
         "C11_get_variants_strict_partial": "generic form: strict order and no duplicates from pairwise distinct UIDs of the result; discharged without hypothesis for every variant container (C11_get_variants_strict_below)",
-        "C11_get_variants_strict_top_partial": "on the top-level container distinctness of UIDs across top-level subtrees (TopApart) is a hypothesis: add does not enforce it (F14) and a variant can be placed twice (F19, F22)",
+        "C11_get_variants_strict_top_partial": "on the top-level container distinctness of UIDs across top-level subtrees (TopApart) is a hypothesis: add does not enforce it (F14; with F33 a variant is then still returned twice: C11_twice_witness)",
         "C11_get_variants_strict_dashless_partial": "TopApart derived from Inv when no top-level UID is dashed; with dashed top-level UIDs it stays a hypothesis (F14)",
     }
 
@@ -879,10 +893,11 @@ MANIFEST = dict(
          "the top at any depth, hypotheses naming F14/F20/F22 exactly. C11_get_variants_sorted/_sound/_complete/_all: ordered by UID, both filters sound ('src' matches "
          "all), complete without type filter (arch completeness uses arches-subset). C11_get_variants_strict_below: on a variant, strictly increasing UIDs and no "
          "duplicates with NO hypothesis on UIDs (distinctness below a variant is derived from InvW); on the top level it needs UIDs of different top-level subtrees to "
-         "differ (derived from Inv when no top-level UID is dashed). Witness theorems (decide, replayed on the real code): F13, F14, F19, F20, F21.",
-    note="False of the code and kept as known findings with predicates: F13 (refused add rewrites the parent pointer), F14 (dashed top-level UID may equal a child's UID), "
-         "F19 (top-level add validates against a stale parent: variant placed twice, returned twice), F20 (__getitem__ compares the relative path with full child UIDs: "
-         "ci['A-A-C'] is A-C), F21 ('self' ignores the arch filter / raises on the top level), F22 (explicit top-level key unchecked). Not modelled: attribute writes "
+         "differ (derived from Inv when no top-level UID is dashed). Witness theorems (decide, replayed on the real code): F14, F27, F28, F33 (F13/F26 repaired: examples).",
+    note="add interprets the statement script of VariantBase.add regenerated from the source (tools/gen_forest.py); C11_refused is for the WHOLE state (children dicts and "
+         "parent pointers). False of the code and kept as known findings with predicates: F14 (dashed top-level UID may equal a child's UID), F33 (a variant already filed under "
+         "one object is accepted by another object with the same UID), F27 (__getitem__ compares the relative path with full child UIDs: ci['A-A-C'] is A-C), F28 ('self' ignores "
+         "the arch filter / raises on the top level), F29 (explicit top-level key unchecked). Repaired: F13, F26. Not modelled: attribute writes "
          "between adds, __delitem__, the JSON writer/reader (the reloaded forest is tied by replaying deserialize's add history through the model); termination of "
          "get_variants is not proved (results are stated for every fuel that suffices; running out of fuel = RecursionError).",
     ref="7/C11")
